@@ -13,6 +13,8 @@ import (
 
 func init() {
 	register(&PropertyCheck{ID: "C03", Level: "other", Run: checkC03, Canaries: []Canary{
+		{Name: "four-byte-decoder-wants-a-fifth-byte", Rule: "R3.8", Where: "(*wuint32).UnmarshalBinary", Edits: []Edit{{"wiretypes.go", "func (v *wuint32) UnmarshalBinary(data []byte) error {\n\tif len(data) < 4 {", "func (v *wuint32) UnmarshalBinary(data []byte) error {\n\tif len(data) <= 4 {"}}},
+		{Name: "connect-decoder-rejects-an-empty-user-name", Rule: "R3.3", Where: "Connect", Edits: []Edit{{"connect.go", "\t}\n\t// password\n\tif p.flags.Has(PasswordFlag) {\n\t\tget(&p.password)", "\t\tif buf.err == nil && len(p.username) == 0 {\n\t\t\tbuf.err = newMalformed(p, \"username\", \"empty\")\n\t\t}\n\t}\n\t// password\n\tif p.flags.Has(PasswordFlag) {\n\t\tget(&p.password)\n\t\tif buf.err == nil && len(p.password) == 0 {\n\t\t\tbuf.err = newMalformed(p, \"password\", \"empty\")\n\t\t}"}}},
 		{Name: "decoder-rejects-the-highest-defined-reason-code", Rule: "R3.4", Where: "Disconnect", Edits: []Edit{{"disconnect.go", "\tb.get(&p.reasonCode)\n", "\tb.get(&p.reasonCode)\n\tif b.err == nil && p.reasonCode >= 0xA2 {\n\t\tb.err = ErrMissingData\n\t}\n"}}},
 		{Name: "pair-decoder-rejects-an-empty-key", Rule: "R3.3", Where: "(*UserProp).UnmarshalBinary", Edits: []Edit{{"wiretypes.go", "\tv[0] = string(key)\n", "\tif len(key) == 0 {\n\t\treturn unmarshalErr(v, \"key\", \"empty\")\n\t}\n\tv[0] = string(key)\n"}}},
 		{Name: "decoder-rejects-valid-option-bytes", Rule: "R3.4", Where: "Subscribe", Edits: []Edit{{"subscribe.go", "\t\tb.get(&f.options)\n", "\t\tb.get(&f.options)\n\t\tif b.err == nil && f.options > bits(OptRetain2) {\n\t\t\tb.err = ErrMissingData\n\t\t}\n"}}},
@@ -225,7 +227,16 @@ func (p *Prog) specFrames(tn string) []specFrame {
 					toks = append(toks, u16("keep alive", 60))
 					exp["KeepAlive()"] = "60"
 					toks = append(toks, p.propSection(tn, "Connect", v.ids, v.zero, exp, "")...)
-					t, r = strTok("client id", 3)
+					// in the "explicit zero values" frames the fixed fields that may be empty are empty as well: a
+					// zero-length client identifier, user name, password and will payload are valid (§1.5.4, §1.5.6,
+					// §3.1.3) — the flags say they are present, their length prefix says 0
+					ln := func(n int64) int64 {
+						if v.zero {
+							return 0
+						}
+						return n
+					}
+					t, r = strTok("client id", ln(3))
 					toks = append(toks, t)
 					exp["ClientID()"] = r
 					if will {
@@ -241,7 +252,7 @@ func (p *Prog) specFrames(tn string) []specFrame {
 						t, r = strTok("will topic", 5)
 						toks = append(toks, t)
 						exp["Will().TopicName()"] = r
-						t, r = strTok("will payload", 6)
+						t, r = strTok("will payload", ln(6))
 						toks = append(toks, t)
 						exp["Will().Payload()"] = r
 						exp["Will().QoS()"] = "1"
@@ -252,12 +263,12 @@ func (p *Prog) specFrames(tn string) []specFrame {
 						}
 					}
 					if cred&1 != 0 {
-						t, r = strTok("user name", 4)
+						t, r = strTok("user name", ln(4))
 						toks = append(toks, t)
 						exp["Username()"] = r
 					}
 					if cred&2 != 0 {
-						t, r = strTok("password", 4)
+						t, r = strTok("password", ln(4))
 						toks = append(toks, t)
 						exp["Password()"] = r
 					}
@@ -311,10 +322,11 @@ func (p *Prog) specFrames(tn string) []specFrame {
 			exp["PacketID()"] = "77"
 			toks = append(toks, p.propSection(tn, tn, v.ids, v.zero, exp, "")...)
 			var fl []string
-			for k := 0; k < 2; k++ {
+			for k := 0; k < 3; k++ {
 				t, r := strTok(fmt.Sprintf("filter%d", k), 3)
-				// the largest valid option bytes: retain handling 2, RAP, NL, QoS 2 — and retain handling 1, RAP, QoS 1
-				opt := []int64{0x2E, 0x19}[k]
+				// the largest valid option bytes: retain handling 2, RAP, NL, QoS 2 — and retain handling 1, RAP, QoS 1 —
+				// and the plain subscription: QoS 0, nothing else (a zero byte that must still be there)
+				opt := []int64{0x2E, 0x19, 0x00}[k]
 				toks = append(toks, t, byt("options", opt))
 				fl = append(fl, fmt.Sprintf("{%s %d}", r, opt))
 			}
@@ -643,6 +655,91 @@ func checkC03(p *Prog, c *Check) {
 			}
 		}
 	}
+	// R3.8: a wire decoder accepts an input of exactly its width (the replay's contract "succeeds whenever the item
+	// fits" is an assumption otherwise): evaluated on concrete bytes
+	checkWireDecodersAcceptWhatFits(p, c)
 	c.Floor("packet types", len(packetTypeNames()), 15, "15 MQTT packet types")
 	var _ ssa.Value
+}
+
+// checkWireDecodersAcceptWhatFits (R3.8): every fixed-width and length-prefixed wire decoder, evaluated in SSA form
+// on an input that holds exactly one item (and on one with three more bytes after it), returns nil and stores the
+// big-endian value / the announced number of bytes.  A guard that is stricter than the item's width (`len(data) <=
+// 4` for a four-byte integer) rejects the last field of a frame.
+func checkWireDecodersAcceptWhatFits(p *Prog, c *Check) {
+	c.Rule("R3.8", "every fixed-width, length-prefixed and pair wire decoder, evaluated on concrete input holding exactly one item (and on the same with trailing bytes), succeeds and stores the big-endian value / the announced bytes")
+	decs, _ := p.wireDecoders()
+	n := 0
+	for _, d := range decs {
+		if t := delegateDecoder(d); t != d {
+			continue
+		}
+		pt, ok := d.Params[0].Type().Underlying().(*types.Pointer)
+		if !ok {
+			continue
+		}
+		kind := p.wireKindOf(pt.Elem())
+		var item []int64
+		var want int64 = -1
+		wantLen := int64(-1)
+		switch kind {
+		case "byte":
+			item, want = []int64{0xA7}, 0xA7
+		case "u16":
+			item, want = []int64{0x12, 0x34}, 0x1234
+		case "u32":
+			item, want = []int64{0x12, 0x34, 0x56, 0x78}, 0x12345678
+		case "lp":
+			item, wantLen = []int64{0x00, 0x03, 0x61, 0x62, 0x63}, 3
+		default:
+			continue
+		}
+		n++
+		cons := qname(d) + "#accepts-what-fits"
+		bad, unk := "", ""
+		inputs := [][]int64{item, append(append([]int64(nil), item...), 0xEE, 0xEE, 0xEE)}
+		if kind == "lp" {
+			inputs = append(inputs, []int64{0x00, 0x00}, []int64{0x00, 0x01, 0x7A})
+		}
+		for _, in := range inputs {
+			ctx := p.newSym(p.globalInput())
+			ctx.opaqueNonNil["unmarshalErr"] = true
+			ctx.opaqueNonNil["newMalformed"] = true
+			ctx.mem["V"] = zeroOf(pt.Elem(), "V")
+			for k, b := range in {
+				ctx.mem[fmt.Sprintf("DATA[%d]", k)] = sv{k: 'i', i: b}
+			}
+			rs, ok := ctx.evalPure(d, []sv{{k: 'p', addr: "V"}, {k: 's', i: int64(len(in)), addr: "DATA"}}, nil, 0)
+			if !ok || len(rs) != 1 {
+				unk = fmt.Sprintf("cannot evaluate the decoder on % x: %s", in, ctx.why)
+				break
+			}
+			if !isNilResult(rs[0]) {
+				bad = fmt.Sprintf("the input % x, which holds a complete %s item, is rejected", in, kind)
+				break
+			}
+			got := ctx.mem["V"]
+			switch {
+			case want >= 0 && (got.k != 'i' || got.i != want):
+				bad = fmt.Sprintf("the input % x decodes to %v, not %#x", in, got, want)
+			case wantLen >= 0:
+				wl := int64(in[1])
+				if got.k != 's' || got.i != wl {
+					bad = fmt.Sprintf("the input % x decodes to %v, not to %d byte(s)", in, got, wl)
+				}
+			}
+			if bad != "" {
+				break
+			}
+		}
+		switch {
+		case unk != "":
+			c.Unk("R3.8", cons, p.Pos(d.Pos()), unk)
+		case bad != "":
+			c.Bad("R3.8", cons, p.Pos(d.Pos()), bad)
+		default:
+			c.OK("R3.8", cons, p.Pos(d.Pos()), fmt.Sprintf("accepts an input of exactly one %s item, and the same followed by other bytes, with the right value", kind))
+		}
+	}
+	c.Floor("wire decoders evaluated on exact-width input", n, 4, "byte, two-byte, four-byte and length-prefixed decoders")
 }
